@@ -18,7 +18,7 @@ EXPLANATION = (
 
 def run(tier):
     cr = CheckRun("C17", tier, "other", EXPLANATION, "DESIGN §4 C17")
-    cr.contracts(["contracts.c15"])  # name resolution inside inlined library bodies (parameter shadows an outer name)
+    cr.contracts(["contracts.c15", "contracts.c10", "contracts.c11"])  # name resolution; folding of library bodies called with literals inside inlined library bodies (parameter shadows an outer name)
     from pyvc import guards
     # each file is expanded at most once: the recursion shares ONE processed_files set (a copy forgets what siblings imported)
     cr.ext_obligations.append(guards.call_passes_param(
